@@ -111,6 +111,58 @@ Theorem C26_back_inconsistent_no_schedule :
 Proof. exact back_inconsistent_no_schedule. Qed.
 Print Assumptions C26_back_inconsistent_no_schedule.
 
+(* (3) BACK AFTER FORWARD.  For a time-triggered plan satisfying the hypotheses of the forward theorem
+   (C26_forward_conversion: non-negative times, eps at most the gap between different event times, forward edges), the
+   STN plan produced by the forward conversion is consistent, STNPlan.__init__ builds the same network in both models,
+   and converting it back returns a time-triggered plan that is sorted by start, has the SAME action instances (one entry
+   per position of the original plan, duration None exactly for the instantaneous steps, otherwise the original duration),
+   whose times satisfy EVERY constraint the forward conversion generated (orderings, epsilon gaps, simultaneity,
+   durations), with every start >= 0 and not later than in the original plan (earliest schedule). *)
+Theorem C26_back_forward_roundtrip_partial :
+  forall eps effs conds plan edges fuel s,
+    times_nonneg plan = true ->
+    gap_ok eps (plan_events eps (mock_step effs conds) plan) = true ->
+    edges_forward (length (plan_events eps (mock_step effs conds) plan)) edges = true ->
+    convert_to_stn fuel eps (mock_step effs conds) plan edges = Some s ->
+    let cs := flatten (conv_constraints eps (mock_step effs conds) plan edges) in
+    check_stn s = true /\ back_init fuel cs = Some s /\
+    exists bp, back_convert s = BackPlan bp /\ sorted_by_start bp /\ same_instances plan bp /\
+      (forall c, In c cs -> sat_pcon (tt_time bp (model_of s end_plan)) c) /\
+      (forall st k du, In (st, k, du) bp -> 0 <= st /\ st <= orig_time plan (snode k)).
+Proof. exact back_forward_roundtrip. Qed.
+Print Assumptions C26_back_forward_roundtrip_partial.
+
+(* (4) the plan converted back IS [retime s plan] of Props/C26.v (position by position: same start and duration up
+   to Qeq; retime keeps effects and conditions of the step), so the open part of C26_roundtrip_goal,
+   [valid (retime s plan)], is exactly the validity of back(forward(plan)) *)
+Theorem C26_back_forward_is_retime :
+  forall eps effs conds plan edges fuel s bp,
+    times_nonneg plan = true ->
+    gap_ok eps (plan_events eps (mock_step effs conds) plan) = true ->
+    edges_forward (length (plan_events eps (mock_step effs conds) plan)) edges = true ->
+    convert_to_stn fuel eps (mock_step effs conds) plan edges = Some s ->
+    back_convert s = BackPlan bp ->
+    length bp = length plan /\
+    forall st k du, In (st, k, du) bp ->
+      exists stp', nth_error (retime s plan) (N.to_nat k) = Some stp' /\ st == st_start stp' /\
+        match du, st_dur stp' with Some d, Some d' => d == d' | None, None => True | _, _ => False end.
+Proof. exact back_forward_is_retime. Qed.
+Print Assumptions C26_back_forward_is_retime.
+
+(* THE SEMANTIC COROLLARY, not proved: validity (for a notion [valid] of plan validity, e.g. the reference temporal
+   semantics tt_valid of C05 for a fixed problem) of the plan converted back, given validity of the original plan.
+   It is FALSE for the current code on the shapes of the open finding C26-span-condition-several-fluents
+   (notes/C26.md: a condition over an interval is only read at the interval's bounds, so the earliest schedule may move
+   an effect inside the interval); it is validated case by case by harness/props/c26.py (real validator + tt_valid_b). *)
+Definition C26_back_forward_valid_goal (valid : list step -> Prop) (deorder : list step -> list (nat * nat)) : Prop :=
+  forall eps effs conds plan fuel s,
+    valid plan ->
+    times_nonneg plan = true ->
+    gap_ok eps (plan_events eps (mock_step effs conds) plan) = true ->
+    edges_forward (length (plan_events eps (mock_step effs conds) plan)) (deorder plan) = true ->
+    convert_to_stn fuel eps (mock_step effs conds) plan (deorder plan) = Some s ->
+    exists bp, back_convert s = BackPlan bp /\ valid (retime s plan).
+
 (* non-vacuity of (1): two action instances, a durative one (0: [2, 2], END at most 7 after GLOBAL_START) and an
    instantaneous one (1) at least 1/2 after the END of the first and at least 3 after GLOBAL_START, an unbounded
    constraint; the plan is [(0, 0, 2); (3, 1, None)] *)
@@ -124,4 +176,28 @@ Example C26_back_nonvacuous :
 Proof.
   eexists. split; [vm_compute; reflexivity|]. split; [reflexivity|]. split; [reflexivity|].
   split; [exists 2, (Some 2); split; [left; reflexivity | discriminate]|]. vm_compute. reflexivity.
+Qed.
+
+(* non-vacuity of (3)/(4): the plan of C26_nonvacuous (a durative step with a left-open condition and an end effect, two
+   instantaneous steps, a timed effect); the plan converted back has the three steps with durations 2 / None / None *)
+Definition C26_back_rt_eps : Q := 1 # 1000.
+Definition C26_back_rt_effs : list timing := [ {| tg_anchor := FromStart; tg_delay := 1 |} ].
+Definition C26_back_rt_plan : list step :=
+  [ {| st_start := 0; st_dur := Some 2;
+       st_effs := [ {| tg_anchor := FromEnd; tg_delay := 0 |} ];
+       st_conds := [ {| iv_lo := {| tg_anchor := FromStart; tg_delay := 0 |};
+                        iv_hi := {| tg_anchor := FromEnd; tg_delay := 0 |}; iv_lopen := true; iv_ropen := false |} ]; st_dyn := false |};
+    {| st_start := 2; st_dur := None; st_effs := []; st_conds := []; st_dyn := false |};
+    {| st_start := 3; st_dur := None; st_effs := []; st_conds := []; st_dyn := false |} ].
+Definition C26_back_rt_edges : list (nat * nat) := [(0, 1); (1, 2); (2, 3); (3, 4)]%nat.
+Example C26_back_forward_nonvacuous :
+  times_nonneg C26_back_rt_plan = true /\
+  gap_ok C26_back_rt_eps (plan_events C26_back_rt_eps (mock_step C26_back_rt_effs []) C26_back_rt_plan) = true /\
+  edges_forward (length (plan_events C26_back_rt_eps (mock_step C26_back_rt_effs []) C26_back_rt_plan)) C26_back_rt_edges = true /\
+  exists s bp, convert_to_stn 100 C26_back_rt_eps (mock_step C26_back_rt_effs []) C26_back_rt_plan C26_back_rt_edges = Some s /\
+               back_convert s = BackPlan bp /\ map step_of bp = [0%N; 1%N; 2%N] /\
+               map (fun x => match snd x with Some _ => true | None => false end) bp = [true; false; false].
+Proof.
+  split; [reflexivity|]. split; [vm_compute; reflexivity|]. split; [vm_compute; reflexivity|].
+  eexists. eexists. split; [vm_compute; reflexivity|]. split; [vm_compute; reflexivity|]. split; vm_compute; reflexivity.
 Qed.
